@@ -372,6 +372,9 @@ func (m *ConnectMessage) Decode(src []byte) (int, error) {
 	}
 	total += n
 
+	// The packet ends where its remaining length says, not where src ends.
+	src = src[:total+int(m.remlen)]
+
 	if n, err = m.decodeMessage(src[total:]); err != nil {
 		return total + n, err
 	}
